@@ -2,6 +2,7 @@
 From Coq Require Import List ZArith Bool.
 Import ListNotations.
 Require Export BS.Common.Util BS.C20.Model.
+Require Import BS.Gen.C20_params.
 Local Open Scope Z_scope.
 
 (* One observed step: the operation, what the implementation reported, and the
@@ -18,7 +19,14 @@ Inductive case :=
 | CE2E (bigmachine : bool) (reg : nat)
        (tasks : list (list (nat * Z)))   (* increments logged per task scope (sorted) *)
        (expected : list (nat * Z))       (* increments the program must perform on its input *)
-       (observed : list Z).              (* Counter.Value(result.Scope()) for metric 0..reg-1 *)
+       (observed : list Z)               (* Counter.Value(result.Scope()) for metric 0..reg-1 *)
+| CHist (bigmachine : bool) (reg : nat)
+       (tasks : list (list (list (nat * Z))))
+         (* a history in which tasks may run more than once (Result.Discard, then a
+            computation that needs the result again): per task scope, the increments
+            of each of its runs, in order of the runs *)
+       (expected : list (nat * Z))       (* increments of the program on its input, each task once *)
+       (observed : list Z).              (* the counters of the final result *)
 
 Definition payload_eqb := list_eqb (option_eqb Z.eqb).
 
@@ -186,6 +194,21 @@ Definition e2e_exact (bigm : bool) (reg : nat) (tasks : list (list (nat * Z)))
   | (_, Panic) => false
   end.
 
+(* histories with re-runs.  The bigmachine flow follows the code as it is now:
+   [worker_run_resets_scope] is regenerated from (worker).Run by goparams. *)
+Definition hist_model (bigm : bool) (reg : nat) (tasks : list (list (list (nat * Z)))) : world * res unit :=
+  if bigm then run_bigmachine_runs worker_run_resets_scope reg tasks else run_local_runs reg tasks.
+
+Definition hist_exact (bigm : bool) (reg : nat) (tasks : list (list (list (nat * Z))))
+           (expected : list (nat * Z)) (observed : list Z) : bool :=
+  match hist_model bigm reg tasks with
+  | (w, Ok _) =>
+      Nat.eqb (length observed) reg
+      && all_metrics reg (fun m => Z.eqb (peek w 0 m) (nth m observed 0))
+      && all_metrics reg (fun m => Z.eqb (wrap (sum_incs m (last_runs tasks))) (wrap (sum_incs m expected)))
+  | (_, Panic) => false
+  end.
+
 Definition e2e_ok (reg : nat) (expected : list (nat * Z)) (observed : list Z) : bool :=
   Nat.eqb (length observed) reg
   && all_metrics reg (fun m => Z.eqb (nth m observed 0) (wrap (sum_incs m expected))).
@@ -194,12 +217,14 @@ Definition case_exact (c : case) : bool :=
   match c with
   | COps blind reg0 ns steps => run_exact blind (init reg0 ns) steps
   | CE2E bigm reg tasks expected observed => e2e_exact bigm reg tasks expected observed
+  | CHist bigm reg tasks expected observed => hist_exact bigm reg tasks expected observed
   end.
 
 Definition case_ok (c : case) : bool :=
   match c with
   | COps _ reg0 ns steps => run_ok reg0 (repeat None ns) steps
   | CE2E _ reg _ expected observed => e2e_ok reg expected observed
+  | CHist _ reg _ expected observed => e2e_ok reg expected observed
   end.
 
 Definition mismatches (cs : list case) : list nat := bad_indices case_exact cs.
